@@ -7,11 +7,15 @@ import (
 	"fmt"
 	"os"
 
+	"verif/checks/c01"
+	"verif/checks/c03"
+	"verif/checks/c05"
 	"verif/checks/c06"
 	"verif/checks/c08"
 	"verif/checks/c09"
 	"verif/checks/c11"
 	"verif/checks/c12"
+	"verif/checks/c17"
 	"verif/engine/report"
 )
 
@@ -22,11 +26,15 @@ type check struct {
 }
 
 var checks = map[string]check{
+	"C01": {"exploration", c01.Run, c01.Replay},
+	"C03": {"exploration", c03.Run, c03.Replay},
+	"C05": {"exploration", c05.Run, c05.Replay},
 	"C06": {"model_checking", c06.Run, c06.Replay},
 	"C08": {"exploration", c08.Run, c08.Replay},
 	"C09": {"fault_enumeration", c09.Run, c09.Replay},
 	"C11": {"model_checking", c11.Run, c11.Replay},
 	"C12": {"model_checking", c12.Run, c12.Replay},
+	"C17": {"exploration", c17.Run, c17.Replay},
 }
 
 func main() {
